@@ -5,6 +5,9 @@ package verifhook
 // Lock is called immediately before a lock guarding library state is taken.
 func Lock(obj any) {}
 
+// TryLock is called immediately before a non-blocking attempt to take such a lock.
+func TryLock(obj any) {}
+
 // Unlocked is called immediately after that lock has been released.
 func Unlocked(obj any) {}
 
